@@ -2,7 +2,7 @@
 From Coq Require Import String List Bool Arith.
 From PV Require Import Xnum Select PyLib Skeleton Lifecycle Lifecycle_proofs Loop Loop_proofs.
 From PVGen Require Import Algos Expected GenSchema GenStop GenHyper.
-From PVBridge Require Import AlgoBridge LifeMain LoopBridge C04Main.
+From PVBridge Require Import AlgoBridge LifeMain LifeExample LoopBridge C04Main.
 
 (* every exported optimizer: the constructor dereferences nothing of the configuration (it can be built with None) and
    set_config_parameters is exactly `self._config = <Config class>( **parameters)` *)
@@ -39,3 +39,14 @@ Print Assumptions C18_set_config_run_equiv.
 Theorem C18_no_shared_mutable_state : gen_no_shared_mutable_state = true.
 Proof. reflexivity. Qed.
 Print Assumptions C18_no_shared_mutable_state.
+
+(* non-vacuity and non-triviality: for a skeleton of the REGENERATED all_skeletons (in no known-exception list), two stores that agree on the inputs but differ in the
+   instance state, in numpy's stream and in the other entropy give the same result under an oracle that adds up everything it reads, a store that differs on the INPUT
+   gives another result (the model does not simply ignore its stores), and the caller's objects are what they were *)
+Theorem C18_hypotheses_satisfiable :
+  exists sk, In sk all_skeletons /\ ~ In (sk_name sk) known_stale /\ ~ In (sk_name sk) known_entropy /\ ~ In (sk_name sk) known_config_writes /\
+    lf_s1 LIn = lf_s2 LIn /\ lf_s1 LState <> lf_s2 LState /\ lf_s1 LG <> lf_s2 LG /\ lf_s1 LE <> lf_s2 LE /\
+    lf_run sk lf_s1 = lf_run sk lf_s2 /\ lf_run sk lf_s3 <> lf_run sk lf_s2 /\
+    run_call nat lf_sum lf_sum lf_sum lf_sum sk 2 lf_s1 LIn = lf_s1 LIn.
+Proof. exact life_hypotheses_satisfiable. Qed.
+Print Assumptions C18_hypotheses_satisfiable.
